@@ -16,20 +16,34 @@ Definition cpp_popcount_2d (aligned : bool) (X : list (list Z)) : list Z :=
   map (cpp_popcount_1d aligned) X.     (* row width decides the path, as in the source *)
 
 (* ---------- unpack_fingerprints ---------- *)
+(* for (j = 0; j < n_features; j += 8): copy min(8, n_features - j) values of the bit table entry
+   of byte j/8, or zeros once j/8 is past the input (as np.unpackbits(count=n_features)) *)
+Fixpoint cpp_unpack_loop (fuel : nat) (n : Z) (bs : list Z) : list Z :=
+  match fuel with
+  | O => []
+  | S f =>
+      if n <=? 0 then []
+      else
+        let chunk := match bs with
+                     | b :: _ => map b2z (byte_bits b)
+                     | [] => repeat 0 8
+                     end in
+        firstn (Z.to_nat (Z.min 8 n)) chunk ++ cpp_unpack_loop f (n - 8) (tl bs)
+  end.
 Definition cpp_unpack_1d (nf : option Z) (bs : list Z) : option (list Z) :=
   let n := match nf with Some x => x | None => 8 * zlen bs end in
-  if negb (n mod 8 =? 0) then None                         (* throws *)
-  else if 8 * zlen bs <? n then None                       (* reads past the input *)
-  else Some (map b2z (firstn (Z.to_nat n) (unpack_all bs))).
+  if n <? 0 then None                                      (* the allocation throws *)
+  else Some (cpp_unpack_loop (Z.to_nat n) n bs).
 Definition cpp_unpack_2d (nf : option Z) (X : list (list Z)) : option (list (list Z)) :=
   fold_right (fun r acc => match cpp_unpack_1d nf r, acc with
                            | Some x, Some l => Some (x :: l) | _, _ => None end) (Some []) X.
 
 (* ---------- centroid_from_sum<uint64_t> ---------- *)
-(* the packing loop: for each output byte, 8 x (shift left, or in the next value) — it reads
-   8 * ceil(nf/8) values, i.e. past the end unless nf is a multiple of 8 *)
+(* the packing loop: for each output byte, 8 x (shift left; or in (value != 0) if the position is
+   still inside the unpacked centroid) *)
 Definition cpp_pack_byte (vals : list Z) : Z :=
-  fold_left (fun acc v => wrap W8 (Z.lor (wrap W8 (acc * 2)) v)) vals 0.
+  fold_left (fun acc v => wrap W8 (Z.lor (wrap W8 (acc * 2)) v))
+            (firstn 8 (map (fun v => b2z (negb (v =? 0))) vals ++ repeat 0 8)) 0.
 Fixpoint cpp_pack_loop (fuel : nat) (vals : list Z) : list Z :=
   match fuel with
   | O => []
@@ -41,9 +55,7 @@ Fixpoint cpp_pack_loop (fuel : nat) (vals : list Z) : list Z :=
 Definition cpp_centroid (ls : list Z) (n : Z) (pack : bool) : option (list Z) :=
   let vals := if n <=? 1 then map (wrap W8) ls
               else map (fun k => b2z (fge (Z2f k) (Zs2f n * 0.5)%float)) ls in
-  if negb pack then Some vals
-  else if negb (zlen ls mod 8 =? 0) then None               (* reads past the end *)
-  else Some (cpp_pack_loop (length vals) vals).
+  if negb pack then Some vals else Some (cpp_pack_loop (length vals) vals).
 
 (* ---------- jt_isim_from_sum ---------- *)
 Definition cpp_isim (ls : list Z) (n : Z) : float :=
@@ -92,6 +104,9 @@ Definition cpp_most_dissimilar (aligned : bool) (nf : option Z) (Y : list (list 
       match cpp_centroid ls n true with
       | None => None
       | Some cen =>
+          if negb (Nat.eqb (length cen) (match Y with r :: _ => length r | [] => O end))
+          then None                                       (* "Shapes should be (N, F) ..." *)
+          else
           let cards := cpp_popcount_2d aligned Y in
           let sc := cpp_arr_vec_precalc aligned Y cen cards in
           let f1 := cpp_argmin sc in
